@@ -12,7 +12,9 @@ use std::sync::Mutex;
 const TOKENS: [&str; 12] = ["word", "\n", "*/", "/*", "//", "\"\"\"", "'''", "\\", "#", "`", "\"", "'"];
 const TOKEN_NAMES: [&str; 12] = ["word", "NL", "*/", "/*", "//", "\"\"\"", "'''", "backslash", "#", "backtick", "\"", "'"];
 const SYNTAXES: [&str; 3] = ["line", "block", "attr"];
-const POSITIONS: [&str; 10] = ["type", "field", "unit-variant", "variant", "variant-field", "alias", "unit-enum-type", "algebraic-enum-type", "algebraic-unit-variant", "algebraic-struct-variant"];
+const POSITIONS: [&str; 12] = ["type", "field", "unit-variant", "variant", "variant-field", "alias", "unit-enum-type", "algebraic-enum-type", "algebraic-unit-variant", "algebraic-struct-variant", "newtype-struct", "unit-struct"];
+/// item-level `#[typeshare(..)]` arguments that send an item through another writer of a backend
+const DECORS: [&str; 4] = ["none", "kotlin-JvmInline-on-alias-and-newtype", "redacted-everywhere-plus-JvmInline", "swift-decorators-and-constraints"];
 
 #[derive(Clone, Debug)]
 pub struct Case {
@@ -23,6 +25,8 @@ pub struct Case {
     pub lang: Lang,
     /// a second, plain one-line `///` doc on the same element: 0 none, 1 before, 2 after the enumerated one
     pub companion: usize,
+    /// index into `DECORS`
+    pub decor: usize,
 }
 
 pub fn gen(ch: &mut Chooser, max_len: usize) -> Case {
@@ -34,7 +38,9 @@ pub fn gen(ch: &mut Chooser, max_len: usize) -> Case {
     let lang = *ch.pick("lang", &ALL_LANGS);
     // quick tier: the companion dimension for words of up to two tokens (the three-token words run without it)
     let companion = if len <= 2 || max_len >= 4 { ch.choose("companion_line_doc", 3) } else { 0 };
-    Case { word, spaced, syntax, position, lang, companion }
+    // the decorated programs for the shortest words (one token in quick, up to two in thorough)
+    let decor = if len == 1 || (max_len >= 4 && len <= 2) { ch.choose("item_decorators", DECORS.len()) } else { 0 };
+    Case { word, spaced, syntax, position, lang, companion, decor }
 }
 
 pub fn payload(c: &Case) -> String {
@@ -61,11 +67,11 @@ pub fn doc_for(c: &Case) -> Option<Doc> {
 }
 
 pub fn program(position: &str, doc: Option<Doc>) -> File {
-    program_with(position, doc.into_iter().collect())
+    program_with(position, doc.into_iter().collect(), 0)
 }
 
 /// `docs`: the doc attributes of the chosen position, in source order
-pub fn program_with(position: &str, all: Vec<Doc>) -> File {
+pub fn program_with(position: &str, all: Vec<Doc>, decor: usize) -> File {
     let docs = |pos: &str| -> Vec<Doc> { if pos == position { all.clone() } else { vec![] } };
     let mut s = Item::strukt("Shape", vec![{
         let mut f = Field::new("side", Ty::Prim("u32"));
@@ -106,19 +112,46 @@ pub fn program_with(position: &str, all: Vec<Doc>) -> File {
     e.docs = docs("algebraic-enum-type");
     let mut a = Item::new("Name", IKind::Alias(Ty::Prim("String")));
     a.docs = docs("alias");
-    File::single(vec![s, u, e, a])
+    let mut n = Item::new("Wrapped", IKind::Newtype(Ty::Prim("String")));
+    n.docs = docs("newtype-struct");
+    let mut m = Item::new("Marker", IKind::UnitStruct);
+    m.docs = docs("unit-struct");
+    let q = |x: &str| x.to_string();
+    match decor {
+        1 => {
+            a.ts_args.push(q("kotlin = \"JvmInline\""));
+            n.ts_args.push(q("kotlin = \"JvmInline\""));
+        }
+        2 => {
+            for it in [&mut a, &mut n] {
+                it.ts_args.push(q("kotlin = \"JvmInline\""));
+                it.ts_args.push(q("redacted"));
+            }
+            for it in [&mut s, &mut u, &mut e, &mut m] {
+                it.ts_args.push(q("redacted"));
+            }
+        }
+        3 => {
+            for it in [&mut s, &mut u, &mut e, &mut a, &mut n, &mut m] {
+                it.ts_args.push(q("swift = \"Equatable, Hashable\""));
+            }
+            s.ts_args.push(q("swiftGenericConstraints = \"T: Equatable\""));
+        }
+        _ => {}
+    }
+    File::single(vec![s, u, e, a, n, m])
 }
 
 type Baseline = Result<Vec<String>, String>;
-static BASELINES: Mutex<Option<HashMap<Lang, Baseline>>> = Mutex::new(None);
+static BASELINES: Mutex<Option<HashMap<(Lang, usize), Baseline>>> = Mutex::new(None);
 
-fn baseline(lang: Lang) -> Baseline {
+fn baseline(lang: Lang, decor: usize) -> Baseline {
     let mut g = BASELINES.lock().unwrap();
     let map = g.get_or_insert_with(HashMap::new);
-    if let Some(b) = map.get(&lang) {
+    if let Some(b) = map.get(&(lang, decor)) {
         return b.clone();
     }
-    let src = render_file(&program("none", None));
+    let src = render_file(&program_with("none", vec![], decor));
     let o = pipeline::run(&[SrcFile::single(src)], lang, &Cfg::plain());
     let r = match o {
         Outcome::Ok(m) => {
@@ -127,7 +160,7 @@ fn baseline(lang: Lang) -> Baseline {
         }
         other => Err(format!("baseline did not generate: {}", other.kind())),
     };
-    map.insert(lang, r.clone());
+    map.insert((lang, decor), r.clone());
     r
 }
 
@@ -145,13 +178,14 @@ pub fn check_case(c: &Case, choices: &[u32], acc: &mut Acc) {
             2 => vec![doc, plain],
             _ => vec![doc],
         },
+        c.decor,
     );
     let source = render_file(&file);
     if let Err(e) = syn_ok(&source) {
         acc.machinery(format!("renderer produced invalid Rust: {e}\n{source}"));
         return;
     }
-    let base = match baseline(c.lang) {
+    let base = match baseline(c.lang, c.decor) {
         Ok(b) => b,
         Err(e) => {
             acc.machinery(format!("baseline failed for {}: {e}", c.lang.name()));
@@ -166,7 +200,7 @@ pub fn check_case(c: &Case, choices: &[u32], acc: &mut Acc) {
         k
     };
     let special: Vec<&str> = kinds.iter().copied().filter(|k| *k != "word").collect();
-    let shape = format!("pos={}|syntax={}|tokens={}", c.position, c.syntax, if special.is_empty() { "plain".to_string() } else { special.join(",") });
+    let shape = format!("pos={}|syntax={}|tokens={}{}", c.position, c.syntax, if special.is_empty() { "plain".to_string() } else { special.join(",") }, if c.decor == 0 { String::new() } else { format!("|items={}", DECORS[c.decor]) });
     let o = pipeline::run(&[SrcFile::single(source.clone())], c.lang, &Cfg::plain());
     let text = match &o {
         Outcome::Ok(m) => m.values().next().cloned().unwrap_or_default(),
@@ -267,7 +301,7 @@ pub fn run(args: &[String]) -> i32 {
         report::threads(),
         u64::MAX,
     );
-    merge(&mut rep, "doc_words", accs, &stats, json!({"alphabet": TOKEN_NAMES, "max_word_length": max_len, "separators": ["none", "space"], "companion_doc": ["none", "one-line /// before", "one-line /// after"], "rust_syntaxes": SYNTAXES, "positions": POSITIONS, "languages": 6}));
+    merge(&mut rep, "doc_words", accs, &stats, json!({"alphabet": TOKEN_NAMES, "max_word_length": max_len, "separators": ["none", "space"], "companion_doc": ["none", "one-line /// before", "one-line /// after"], "rust_syntaxes": SYNTAXES, "positions": POSITIONS, "item_decorators": DECORS, "item_decorators_for_words_up_to": if max_len >= 4 { 2 } else { 1 }, "languages": 6}));
     require_nonvacuous(&mut rep);
     rep.cov("rule", json!("every word up to the stated length over the doc-token alphabet, joined with or without spaces, wrapped in sentinels DOCB7/DOCE7, written in each Rust doc syntax that can express it, attached to each documentable position, for each language; oracle: the code token stream (comments and docstrings removed) of the output equals that of the same program without docs, tokenizing never ends inside an open comment/string, and both sentinels occur inside comment tokens. non-trivial = the word contains a token other than plain text."));
     rep.assume("the per-language tokenizers of mc/src/extract/lex.rs decide what is a comment / docstring");
